@@ -717,9 +717,78 @@ def probe_validation_and_fallback(ctx):
                  {"call": "unitary(qclib.isometry._extend_to_unitary(H3[:, :2], 3, 1), 'qsd', 2, True)"})
 
 
+# ---------------------------------------------------------------------------------------------------
+# branch coverage of the anchored sources (tools/branch_audit.py C02)
+# ---------------------------------------------------------------------------------------------------
+
+UNREACHED_JUSTIFIED = {
+    "qclib/unitary.py:cnot_count,_cnot_count_estimate,_cnot_count_iso,_cnot_count_iso_qsd": "CNOT counts of the synthesis: property C10",
+    "qclib/unitary.py:381->416": "dead: _apply_mcxs is only called while n_diff > 1, so some bit differs and the loop always leaves through a break (C02_qr_gray proves the walk never fails)",
+    "qclib/gates/ucr.py:75-76": "last_control=True: unitary.py always passes last_control=False (the CZ is absorbed, optimisation A.1); the True side belongs to C13 / C01",
+}
+
+
+def probe_call_forms(ctx):
+    """The same matrices handed over in the other admissible forms: no optional argument at all (defaults qsd / iso 0 /
+    A.2 on), keyword arguments, a nested list instead of an ndarray (unitary() itself starts with np.asarray), a real
+    dtype.  One narrow key per form x decomposition."""
+    import numpy as np
+    from qiskit.quantum_info import Operator
+    forms = []
+    for n in (1, 2, 3):
+        for fam in ("haar", "real_orthogonal", "hadamard", "permutation", "block_equal"):
+            seed = ctx.rng.getrandbits(32)
+            u = make_unitary(fam, n, seed)
+            forms.append((n, fam, seed, "defaults", "qsd", 0, lambda q, u=u: q.unitary(u.copy())))
+            forms.append((n, fam, seed, "build-defaults", "qsd", 0, lambda q, u=u: q.build_unitary(u.copy())))
+            forms.append((n, fam, seed, "keywords", "csd", 0,
+                          lambda q, u=u: q.unitary(gate=u.copy(), decomposition="csd", iso=0, apply_a2=False)))
+            iso = n - 1
+            forms.append((n, fam, seed, "list", "qsd", iso, lambda q, u=u, iso=iso: q.unitary(u.tolist(), "qsd", iso, True)))
+            forms.append((n, fam, seed, "list", "csd", 0, lambda q, u=u: q.unitary(u.tolist(), "csd")))
+            if np.abs(u.imag).max() == 0:
+                ur = np.real(u).copy()
+                forms.append((n, fam, seed, "real-dtype", "qsd", 0, lambda q, ur=ur: q.unitary(ur.copy(), "qsd")))
+                forms.append((n, fam, seed, "real-dtype", "csd", iso, lambda q, ur=ur, iso=iso: q.unitary(ur.copy(), "csd", iso)))
+                if np.abs(u).min() > 1e-6:
+                    forms.append((n, fam, seed, "real-dtype", "qr", 0, lambda q, ur=ur: q.unitary(ur.copy(), "qr")))
+                    forms.append((n, fam, seed, "list", "qr", 0, lambda q, ur=ur: q.unitary(ur.tolist(), "qr")))
+    seen_fail = set()
+    for n, fam, seed, form, dec, iso, call in forms:
+        ctx.count(f"branch:call-form:{form}:{dec}")
+        key = f"unitary-form:{form}:{dec}:iso={iso}:n={n}:{fam}"
+        rep = {"call": f"qclib.unitary.unitary / build_unitary, form {form!r}", "n": n, "family": fam, "seed": seed,
+               "decomposition": dec, "iso": iso, "form": form,
+               "how": "U = tools/props/c02.py::make_unitary(family, n, seed); see probe_call_forms"}
+        u = make_unitary(fam, n, seed)
+        rec = []
+        try:
+            with instrumented(rec) as q:
+                circ = call(q)
+        except Exception as e:  # noqa: BLE001  qclib raised on a valid unitary
+            k2 = f"unitary-raises:{dec}:{form}-input"
+            if k2 not in seen_fail:       # one report per form x decomposition
+                seen_fail.add(k2)
+                ctx.fail(k2, f"qclib raised on a valid unitary given as {form} (n={n}, {fam}): {type(e).__name__}: {e}", rep)
+            continue
+        cols = 2 ** (n - iso) if dec != "qr" else 2 ** n
+        err = float(np.abs(Operator(circ).data[:, :cols] - u[:, :cols]).max())
+        a2_called = any(r[0] == "a2" for r in rec)
+        if form == "defaults" and not a2_called:
+            ctx.fail(key + ":a2", "unitary(U) with no optional argument did not run the A.2 pass (documented default apply_a2=True, "
+                                  "decomposition='qsd')", rep)
+        elif form == "build-defaults" and n >= 3 and not any(r[0] == "demux" for r in rec):
+            ctx.fail(key + ":dec", "build_unitary(U) with no optional argument did not take the qsd recursion", rep)
+        elif err > TOL:
+            ctx.fail(key, f"max |Operator(circuit) - U| over the leading {cols} columns = {err:.3e}", rep)
+        else:
+            ctx.ok(key, nontrivial=n >= 2, sample={"n": n, "family": fam, "dec": dec, "iso": iso, "form": form, "err": err})
+
+
 def run(ctx):
     run_tie(ctx)
     probe_findings(ctx)
+    probe_call_forms(ctx)
     jobs = oracle_jobs(ctx, 5 if ctx.quick else 6, 4 if ctx.quick else 5, 2 if ctx.quick else 4)
     for job, res in zip(jobs, run_jobs(jobs)):
         judge(ctx, job, res)
@@ -747,6 +816,9 @@ def search(ctx, hints):
 
 def replay(ctx, payload):
     r = payload["replay"]
+    if r.get("form"):
+        probe_call_forms(ctx)
+        return
     job = ("unitary", r["n"], r["family"], r["seed"], r["decomposition"], r["iso"], r["apply_a2"])
     judge(ctx, job, run_job(job))
     flush_deferred(ctx)
